@@ -556,6 +556,8 @@ class Explorer:
         self.reach: dict = {}      # state -> (pred state, label)
         self.segments: dict[str, list] = {}
         self.edges = 0
+        self.edge_watch = None      # optional predicate (s, t, label) -> bool; matching transitions are kept in self.watched
+        self.watched: list = []
 
     def initial(self):
         st = self.ctx.prog.func("openpectus.lang.exec.tags:create_system_tags")
@@ -813,6 +815,8 @@ class Explorer:
             s = work.popleft()
             for (t, lab) in self.successors(s):
                 self.edges += 1
+                if self.edge_watch is not None and len(self.watched) < 64 and self.edge_watch(s, t, lab):
+                    self.watched.append((s, t, lab))
                 if t not in self.reach:
                     self.reach[t] = (s, lab)
                     work.append(t)
